@@ -495,3 +495,143 @@ Example C09_example_program_trace_wf :
   pre_trace (init 4096) [] (hx_trace 3) /\ pre_traceb (init 4096) [] (hx_trace 3) = true.
 Proof. exact (conj (hx_trace_wf 3 _ _ hx_frontier_3) hx_trace_wf_computed). Qed.
 Print Assumptions C09_example_program_trace_wf.
+
+(* ====================================================================================== *)
+(* store / load at the x86-64 level (round 2): the emitted code of `x_store` (let / create) and
+   `x_load` (switch / invoke) refines the abstract `alloc_object` / `load_object`, for any number of
+   fields (chains of blocks), all variables in registers or spill slots (`tpos k` is the temporary of
+   position k), both load modes.  Proof/X86MemFrame.v, X86MemStore.v, X86MemLoad.v,
+   X86MemStoreChain.v, X86MemLoadChain.v.
+     vals_ok s sp val E bs   the variables bs sit at positions E, E+1, ...: second temporaries (and
+                             first temporaries of non-ext variables) hold `val`
+     fsts val E bs           their pointer slots, left to right, 0 for ext variables
+     alloc_object_pre        the precondition of `acquire_block` (as in C09_x86_acquire_block_reg)
+                             before each block of the chain, stated on the abstract state
+     lf_share_ok             every link of the chain is a block, every pointer slot is 0 or a block,
+                             unused slots and slots of ext fields are 0 (what `store` establishes) *)
+From SCC Require Import Model.Backend Proof.X86MemFrame Proof.X86MemStore Proof.X86MemLoad Proof.X86MemStoreChain Proof.X86MemLoadChain.
+
+(* the straight-line stores into the reserved block *)
+Theorem C09_x86_store_values :
+  forall im pos (to_store_next : list binding) (remaining_plus_rest : ctx) cap cs s sp rv F val,
+    store_values (rev to_store_next) remaining_plus_rest HEAP cap = Ok cs ->
+    (cap = 3 \/ cap = 2)%N -> (N.of_nat (length to_store_next) <= cap)%N ->
+    code_at im pos cs -> frame_ok s sp -> rget s HEAP = Some rv -> is_blk rv ->
+    vals_ok s sp val (length remaining_plus_rest) to_store_next ->
+    exists s', steps im pos s (pnth pos (length cs)) s' /\ same_but_temp s s' /\
+      stored (hword s') (hword s) val (length remaining_plus_rest) to_store_next rv cap /\
+      st_eqB (abs_heap F s')
+        {| Heap.m := Heap.set_ps (abs_mem s) rv
+                       (Heap.pad (N.to_nat cap) (fsts val (length remaining_plus_rest) to_store_next) ++ link_slot cap (hword s) rv);
+           Heap.heap := reg_or0 s HEAP; Heap.free := reg_or0 s FREE; Heap.frontier := F |}.
+Proof. exact x86_store_values_ok. Qed.
+Print Assumptions C09_x86_store_values.
+
+(* one block: store_values + acquire_block = Heap.alloc; the integer slots hold the second temporaries *)
+Theorem C09_x86_store_one_block :
+  forall im pos (to_store remaining : ctx) lc cs lc' s sp rv h2 F val,
+    x_store to_store remaining lc = Ok (cs, lc') -> (1 <= length to_store <= 3)%nat ->
+    code_at im pos cs -> labels_at im pos cs -> frame_ok s sp ->
+    rget s HEAP = Some rv -> is_blk rv -> rget s FREE = Some h2 ->
+    (hword s rv = 0 -> is_blk h2) ->
+    (hword s rv = 0 -> hword s h2 <> 0 ->
+       (forall off, off = 16 \/ off = 32 \/ off = 48 -> hword s (h2 + off) = 0 \/ is_blk (hword s (h2 + off))) /\
+       bounded 3 s (hword s h2)) ->
+    vals_ok s sp val (length remaining) to_store ->
+    let E := length remaining in let n := length to_store in
+    let res := Heap.alloc (Heap.pad 3 (fsts val E to_store)) (abs_heap F s) in
+    exists s', steps im pos s (pnth pos (length cs)) s' /\
+      st_eqB (abs_heap (Heap.frontier (snd res)) s') (snd res) /\ fst res = rv /\
+      lget s' sp (tpos (2 * N.of_nat E)) = Some rv /\
+      (forall i, (i < n)%nat -> hword s' (rv + field_offset Snd (3 - N.of_nat n + N.of_nat i)) = snd_slot val (E + i)) /\
+      (forall k, (k < MAXPOS)%N -> k <> (2 * N.of_nat E)%N -> lget s' sp (tpos k) = lget s sp (tpos k)) /\
+      out s' = out s /\ frame_ok s' sp.
+Proof. exact x86_store_one_block_ok. Qed.
+Print Assumptions C09_x86_store_one_block.
+
+(* nothing to store: the pointer is 0, nothing is allocated *)
+Theorem C09_x86_store_empty :
+  forall im pos (remaining : ctx) lc cs lc' s sp,
+    x_store nil remaining lc = Ok (cs, lc') -> code_at im pos cs -> frame_ok s sp ->
+    lc' = lc /\
+    exists s', steps im pos s (pnth pos (length cs)) s' /\
+      lget s' sp (tpos (2 * N.of_nat (length remaining))) = Some 0 /\
+      (forall l, loc_ok l -> l <> tpos (2 * N.of_nat (length remaining)) -> l <> XR TEMP -> lget s' sp l = lget s sp l) /\
+      X86Sem.heap s' = X86Sem.heap s /\ out s' = out s /\ frame_ok s' sp.
+Proof. exact x86_store_empty_ok. Qed.
+Print Assumptions C09_x86_store_empty.
+
+(* any number of fields: store_fields = Heap.alloc_object *)
+Theorem C09_x86_store :
+  forall im pos (to_store remaining : ctx) lc cs lc' s sp F val,
+    x_store to_store remaining lc = Ok (cs, lc') -> to_store <> nil ->
+    code_at im pos cs -> labels_at im pos cs -> frame_ok s sp ->
+    vals_ok s sp val (length remaining) to_store ->
+    alloc_object_pre (fsts val (length remaining) to_store) (abs_heap F s) ->
+    let res := Heap.alloc_object (fsts val (length remaining) to_store) (abs_heap F s) in
+    exists s', steps im pos s (pnth pos (length cs)) s' /\
+      st_eqB (abs_heap (Heap.frontier (snd res)) s') (snd res) /\
+      lget s' sp (tpos (2 * N.of_nat (length remaining))) = Some (fst res) /\
+      (forall k, (k < 2 * N.of_nat (length remaining))%N -> lget s' sp (tpos k) = lget s sp (tpos k)) /\
+      out s' = out s /\ frame_ok s' sp.
+Proof. exact x86_store_ok. Qed.
+Print Assumptions C09_x86_store.
+
+(* one block: the header test, then release or decrement-and-share = Heap.load *)
+Theorem C09_x86_load_one_block :
+  forall im pos (to_load existing : ctx) lc cs lc' s sp p h F,
+    x_load to_load existing lc = Ok (cs, lc') -> (1 <= length to_load <= 3)%nat ->
+    code_at im pos cs -> labels_at im pos cs -> frame_ok s sp ->
+    lget s sp (tpos (2 * N.of_nat (length existing))) = Some p -> is_blk p -> rget s HEAP = Some h ->
+    load_pre s p (length existing) to_load ->
+    exists s', steps im pos s (pnth pos (length cs)) s' /\
+      st_eqB (abs_heap F s') (Heap.load p (abs_heap F s)) /\
+      (forall i b, nth_error to_load i = Some b ->
+         lget s' sp (tpos (2 * N.of_nat (length existing + i) + 1)) =
+           Some (hword s (p + field_offset Snd (3 - N.of_nat (length to_load) + N.of_nat i))) /\
+         (bchi b <> AxSyn.Ext -> lget s' sp (tpos (2 * N.of_nat (length existing + i))) =
+           Some (hword s (p + field_offset Fst (3 - N.of_nat (length to_load) + N.of_nat i))))) /\
+      (forall k, (k < 2 * N.of_nat (length existing))%N -> lget s' sp (tpos k) = lget s sp (tpos k)) /\
+      out s' = out s /\ frame_ok s' sp.
+Proof. exact x86_load_one_block_ok. Qed.
+Print Assumptions C09_x86_load_one_block.
+
+(* any number of fields: load_fields in either mode = Heap.load_object (nlinks n) *)
+Theorem C09_x86_load :
+  forall im pos (to_load existing : ctx) lc cs lc' s sp p h F,
+    x_load to_load existing lc = Ok (cs, lc') -> to_load <> nil ->
+    code_at im pos cs -> labels_at im pos cs -> frame_ok s sp ->
+    lget s sp (tpos (2 * N.of_nat (length existing))) = Some p -> is_blk p -> rget s HEAP = Some h ->
+    lf_share_ok (S (length to_load)) (hword s) to_load Last p ->
+    (forall x, is_blk x -> AxSem.min_int + 1 <= hword s x /\ hword s x + Z.of_nat (length to_load) <= AxSem.max_int) ->
+    exists s', steps im pos s (pnth pos (length cs)) s' /\
+      st_eqB (abs_heap F s') (Heap.load_object (Heap.nlinks (length to_load)) p (abs_heap F s)) /\
+      (forall i b, nth_error to_load i = Some b ->
+         let A := lf_addrs (S (length to_load)) (hword s) to_load Last p in
+         let a := nth (length A - length to_load + i) A 0 in
+         lget s' sp (tpos (2 * N.of_nat (length existing + i) + 1)) = Some (hword s (a + 8)) /\
+         (bchi b <> AxSyn.Ext -> lget s' sp (tpos (2 * N.of_nat (length existing + i))) = Some (hword s a))) /\
+      (forall k, (k < 2 * N.of_nat (length existing))%N -> lget s' sp (tpos k) = lget s sp (tpos k)) /\
+      out s' = out s /\ frame_ok s' sp.
+Proof. exact x86_load_ok. Qed.
+Print Assumptions C09_x86_load.
+
+(* non-vacuity: concrete code lists in mk_image *)
+Example C09_x86_store_example :
+  let a := abs_heap (HEAP_BASE + 64) ex5_state in
+  let res0 := Heap.alloc_object (fsts ex5_val 0 ex5_store) a in
+  exists lc', x_store ex5_store nil 0 = Ok (ex5_code, lc') /\
+    fsts ex5_val 0 ex5_store = 0 :: 102 :: 0 :: 106 :: 0 :: nil /\
+    fst res0 = HEAP_BASE + 64 /\ Heap.frontier (snd res0) = HEAP_BASE + 192 /\
+    exists s', steps (mk_image ex5_code) 1 ex5_state (pnth 1 (length ex5_code)) s' /\
+      st_eqB (abs_heap (HEAP_BASE + 192) s') (snd res0) /\ rget s' 4 = Some (HEAP_BASE + 64).
+Proof. exact x86_store_example. Qed.
+Print Assumptions C09_x86_store_example.
+
+Example C09_x86_load_example :
+  exists lc', x_load ex5_store ex6_existing 0 = Ok (ex6_code, lc') /\
+    exists s', steps (mk_image ex6_code) 1 ex6_state (pnth 1 (length ex6_code)) s' /\
+      st_eqB (abs_heap (HEAP_BASE + 256) s') (Heap.load_object 1 HEAP_BASE (abs_heap (HEAP_BASE + 256) ex6_state)) /\
+      sget s' ex_sp 2 = Some 11 /\ sget s' ex_sp 3 = Some (HEAP_BASE + 128) /\ sget s' ex_sp 10 = Some 55 /\ rget s' 4 = Some 777.
+Proof. exact x86_load_example. Qed.
+Print Assumptions C09_x86_load_example.
